@@ -125,4 +125,44 @@ inductive AllPairs {α β : Type} (R : α → β → Prop) : List α → List β
   | nil : AllPairs R [] []
   | cons {a : α} {b : β} {as : List α} {bs : List β} : R a b → AllPairs R as bs → AllPairs R (a :: as) (b :: bs)
 
+/-! ## vocabulary of the theorem statements (C03 / C04 / C08 / C09) -/
+
+/-- a nil / empty argument of `ScheduleJob` (nil job detail, nil key, empty key name, nil trigger) -/
+def SchedArgs.illegal (a : SchedArgs) : Prop :=
+  a.hasDetail = false ∨ a.hasKey = false ∨ a.name = "" ∨ a.trig = none
+
+instance (a : SchedArgs) : Decidable a.illegal := by unfold SchedArgs.illegal; infer_instance
+
+/-- the non-suspended trigger answers with its own error -/
+def SchedArgs.trigFails (a : SchedArgs) (now : Int) : Prop :=
+  a.suspended = false ∧ ∃ t, a.trig = some t ∧ (t.fire now).1 = none
+
+/-- the entry `ScheduleJob` builds when the trigger answered `p` -/
+def SchedArgs.entry (a : SchedArgs) (p : Int) : Entry :=
+  { group := a.group, name := a.name, prio := p, suspended := a.suspended, replace := a.replace, tag := a.tag }
+
+/-- the entry `PauseJob` puts back -/
+def pausedOf (e : Entry) : Entry := { e with prio := maxInt64, suspended := true }
+
+/-- the entry `ResumeJob` puts back -/
+def resumedOf (e : Entry) (p : Int) : Entry := { e with prio := p, suspended := false }
+
+/-- tags identify entries -/
+def TagsDistinct (q : Arr) : Prop := ∀ x ∈ q.toList, ∀ y ∈ q.toList, x.tag = y.tag → x = y
+
+/-- no entry of the registry carries tag `t` -/
+def AbsentTag (t : Nat) (s : SState) : Prop := ∀ e ∈ s.q.toList, e.tag ≠ t
+
+/-- all events are loop steps -/
+def OnlySteps (evs : List Ev) : Prop := ∀ ev ∈ evs, ∃ now, ev = .step now
+
+/-- no step pops tag `t` more than the threshold late -/
+def NeverOutdated (t : Nat) (obs : List Obs) : Prop :=
+  ∀ o ∈ obs, ∀ out e, o.out = some out → out.popped = some e → e.tag = t → out.cls ≠ some .outdated
+
+/-- the event is a `ScheduleJob` for key `(g, n)` -/
+def Ev.schedulesKey (g n : String) : Ev → Bool
+  | .schedule _ a => a.group == g && a.name == n
+  | _ => false
+
 end Sched
